@@ -420,7 +420,7 @@ func (l *ledger) competingBlock(nb *Node, parent, b *types.Block, t uint32, exp 
 			txTransfer(l.w.FounderKey, keyAddr(l.key("u1")), lemo(int64(200+c.Rnd.Intn(500))), TxOpt{Exp: exp, Msg: fmt.Sprintf("side-%d-a", b.Height())}),
 			txTransfer(l.w.FounderKey, keyAddr(l.key("u2")), lemo(int64(1+c.Rnd.Intn(300))), TxOpt{Exp: exp, Msg: fmt.Sprintf("side-%d-b", b.Height())}),
 		}
-		side, _, _, err := l.buildRec(parent, t2, txs, k, 0)
+		side, _, _, err := l.buildRec(parent, t2, txs, k, 105000000)
 		if err != nil {
 			c.Count("nodeB:competing-block:build-failed")
 			return
@@ -642,7 +642,7 @@ func (l *ledger) siblingBranch(parent, b *types.Block, t uint32, exp uint64) {
 		if os.Getenv("HX_DEBUG") == "sib" {
 			log.Setup(log.LevelInfo, false, true)
 		}
-		sib, _, _, err := l.buildJudged(parent, t2, types.Transactions{chg}, k, 0)
+		sib, _, _, err := l.buildJudged(parent, t2, types.Transactions{chg}, k, 105000000)
 		if os.Getenv("HX_DEBUG") == "sib" {
 			log.Setup(log.LevelCrit, false, false)
 		}
@@ -668,7 +668,7 @@ func (l *ledger) siblingBranch(parent, b *types.Block, t uint32, exp uint64) {
 		byL2 := l.signedTransfer(target, to, l.userNamesOf(l2), exp, fmt.Sprintf("sib-l2-%d", b.Height()))
 		byL1 := l.signedTransfer(target, to, l.userNamesOf(l1), exp, fmt.Sprintf("sib-l1-%d", b.Height()))
 		byOld := l.signedTransfer(target, to, oldKeys, exp, fmt.Sprintf("sib-old-%d", b.Height()))
-		child, _, _, err := l.buildJudged(sib, t3, types.Transactions{byL2, byL1, byOld}, k3, 0)
+		child, _, _, err := l.buildJudged(sib, t3, types.Transactions{byL2, byL1, byOld}, k3, 105000000)
 		if err != nil {
 			return
 		}
